@@ -16,7 +16,13 @@ Ties between the Lean layer (Model/Storage.lean, Props/C09.lean, Model/SqlSite.l
                    around powers of two and typical batch sizes (63/64/65, 99..101, 255..257, 499..502, 999..1002, 1023..1025, ...),
                    close/reopen, point reads across the whole id range, payloads from empty to 64 KiB (> 1 MiB once in thorough);
                    the model side also runs its keyset-paged reader (arbitrary page size, correct cursor rule) on the same tables;
-               (c) threaded stress: writers/readers on own rows; concurrent read_all readers during a bulk write.
+               (c) threaded stress: writers/readers on own rows; concurrent read_all readers during a bulk write;
+               (d) FAULT INJECTION against the connection-level model (driver layer `sqliteconn`, Model/Storage.lean `Conn`): the module's
+                   `sqlite3` name is replaced by a shim whose connections raise sqlite3.OperationalError at chosen `execute` / `fetchall`
+                   calls (transient: once; persistent: also on the retry), and a second real connection holds `BEGIN IMMEDIATE` across
+                   lock windows (busy timeouts scaled down 2500x); at every position of short programs, repeatedly in random programs,
+                   at sampled positions of size-scaling programs; afterwards more writes, then (a) reads through the same object,
+                   (b) reads through a FRESH sqlite3 connection to the same file, (c) reads after close+reopen are compared with the model.
 Search oracle (step 4, only when the proof audit, the static table or the correspondence broke): the map laws (reference dict)
 evaluated directly on the real backend, on short sequences first and then on the size-scaling programs; a failing program is
 shrunk (delta debugging) and written, complete, into the replay file (`./check C09 --replay <file>` re-runs it)."""
@@ -160,7 +166,7 @@ def gen_ops(rng, n, vals, tags=TAGS):
     return ops
 
 
-def op_line(op, vt=None, mock=False):
+def op_line(op, vt=None, mock=False, for_model=False):
     e = lambda x: "~" if x is None else str(x)
     if op[0] == "create":
         return "create %s %s" % (ttok(op[1]), vtok(op[2]))
@@ -172,7 +178,18 @@ def op_line(op, vt=None, mock=False):
         return "readall %s" % ttok(op[1])
     if op[0] == "readpaged":      # real side: read_all; model side: the paged reader with the correct cursor rule
         return "readall %s" % ttok(op[1]) if mock else "readpaged %s %d 0" % (ttok(op[1]), op[2])
+    if op[0] == "fault":          # ("fault", failing executes, fetchall fails, executes before the first fault, inner op)
+        # every interface call of the audited code issues ONE statement (reopen: five), so a fault scheduled behind the first
+        # execute of such a call never fires: the model is told "no execute fault" (code that issues a second statement is hit)
+        n = op[1] if fault_fires(op) or not for_model else 0
+        return "fault %d %s %d %s" % (n, "T" if op[2] else "F", op[3], op_line(op[4], mock=True))
+    if op[0] == "freshall":
+        return "freshall %s" % ttok(op[1])
     return op[0]
+
+
+def fault_fires(op):
+    return op[4][0] == "reopen" or op[3] == 0
 
 
 def parse_line(line):
@@ -190,6 +207,12 @@ def parse_line(line):
         return ("readpaged", tval(t[1]), int(t[2]))
     if t[0] == "reopen":
         return ("reopen",)
+    if t[0] == "fault":
+        return ("fault", int(t[1]), t[2] == "T", int(t[3]), parse_line(" ".join(t[4:])))
+    if t[0] == "freshall":
+        return ("freshall", tval(t[1]))
+    if t[0] in ("lock", "unlock"):
+        return (t[0],)
     raise HarnessError("cannot parse op line %r" % line)
 
 
@@ -234,6 +257,173 @@ class RealSqlite:
                 self.st.close()
         finally:
             shutil.rmtree(self.dir, ignore_errors=True)
+
+
+TIME_SCALE = 2500       # busy timeouts of the code under test are divided by this (5 s -> 2 ms) in the fault runs
+
+
+class FaultCtl:
+    """schedule of injected sqlite3.OperationalError: after `skip` more executes the next `fail` executes raise; `fetch`: the next
+    fetchall raises"""
+
+    def __init__(self):
+        self.skip = self.fail = 0
+        self.fetch = False
+        self.fired = self.fetch_fired = self.connects = self.executes = self.unfired = 0
+
+    def arm(self, skip, fail, fetch):
+        self.skip, self.fail, self.fetch = skip, fail, fetch
+
+    def disarm(self, count=True):
+        if count:
+            self.unfired += self.fail + (1 if self.fetch else 0)
+        self.skip = self.fail = 0
+        self.fetch = False
+
+
+class CursorProxy:
+    def __init__(self, real, ctl):
+        self._real, self._ctl = real, ctl
+
+    def fetchall(self):
+        if self._ctl.fetch:
+            self._ctl.fetch = False
+            self._ctl.fetch_fired += 1
+            raise sqlite3_real().OperationalError("injected fault (fetchall)")
+        return self._real.fetchall()
+
+    def __iter__(self):
+        return iter(self._real)
+
+    def __getattr__(self, name):
+        return getattr(self._real, name)
+
+
+class ConnProxy:
+    """a real sqlite3 connection whose `execute` raises on schedule; everything else (attribute reads AND writes, close, ...) goes
+    to the real connection"""
+
+    def __init__(self, real, ctl):
+        object.__setattr__(self, "_real", real)
+        object.__setattr__(self, "_ctl", ctl)
+
+    def execute(self, sql, *args, **kw):
+        ctl = self._ctl
+        ctl.executes += 1
+        if ctl.skip > 0:
+            ctl.skip -= 1
+        elif ctl.fail > 0:
+            ctl.fail -= 1
+            ctl.fired += 1
+            raise sqlite3_real().OperationalError("injected fault (execute)")
+        if isinstance(sql, str):
+            m = re.match(r"(?i)^(\s*PRAGMA\s+busy_timeout\s*=\s*)(\d+)(.*)$", sql)
+            if m:
+                sql = "%s%d%s" % (m.group(1), max(1, int(m.group(2)) // TIME_SCALE), m.group(3))
+        cur = self._real.execute(sql, *args, **kw)
+        return CursorProxy(cur, ctl) if ctl.fetch else cur
+
+    def __getattr__(self, name):
+        return getattr(self._real, name)
+
+    def __setattr__(self, name, value):
+        setattr(self._real, name, value)
+
+
+def sqlite3_real():
+    import sqlite3
+    return sqlite3
+
+
+class Sqlite3Shim:
+    """stands for the name `sqlite3` inside cloudsync.sync.sqlite_storage during the fault runs"""
+
+    def __init__(self, ctl):
+        self._ctl = ctl
+
+    def connect(self, *args, **kw):
+        self._ctl.connects += 1
+        kw["timeout"] = float(kw.get("timeout", 5.0)) / TIME_SCALE
+        return ConnProxy(sqlite3_real().connect(*args, **kw), self._ctl)
+
+    def __getattr__(self, name):
+        return getattr(sqlite3_real(), name)
+
+
+class RealSqliteF(RealSqlite):
+    """SqliteStorage on a real file with fault injection, a fresh-connection reader and a lock holder"""
+    kind = "sqlite"
+
+    def __init__(self):
+        RealSqlite.__init__(self)
+        import cloudsync.sync.sqlite_storage as mod
+        self.mod = mod
+        self.ctl = FaultCtl()
+        self.locker = None
+        self.installed = False
+
+    def install(self):
+        self.mod.sqlite3 = Sqlite3Shim(self.ctl)
+        self.installed = True
+
+    def uninstall(self):
+        self.mod.sqlite3 = sqlite3_real()
+        self.installed = False
+
+    def reset(self):
+        self.unlock()
+        self.ctl.disarm()
+        if not self.installed:
+            self.install()
+        RealSqlite.reset(self)
+
+    def reopen(self):
+        self.st.close()
+        try:
+            self.st = self.cls(self.path)
+        except Exception:
+            self.ctl.disarm()               # the caller sees the error; later calls need a usable object all the same
+            self.st = self.cls(self.path)
+            raise
+
+    def fresh(self, tag):
+        con = sqlite3_real().connect(self.path, timeout=1.0)
+        try:
+            if tag is None:
+                rows = con.execute("SELECT id, tag, serialization FROM cloud").fetchall()
+            else:
+                rows = con.execute("SELECT id, tag, serialization FROM cloud WHERE tag = ?", [tag]).fetchall()
+        finally:
+            con.close()
+        return rows
+
+    def lock(self):
+        con = sqlite3_real().connect(self.path, timeout=0.05, isolation_level=None)
+        try:
+            con.execute("BEGIN IMMEDIATE")
+        except sqlite3_real().OperationalError:
+            con.close()
+            return "busy"
+        self.locker = con
+        return "unit"
+
+    def unlock(self):
+        if self.locker is not None:
+            try:
+                self.locker.execute("ROLLBACK")
+            finally:
+                self.locker.close()
+                self.locker = None
+        return "unit"
+
+    def cleanup(self):
+        try:
+            self.unlock()
+        finally:
+            try:
+                RealSqlite.cleanup(self)
+            finally:
+                self.uninstall()
 
 
 class RealMock:
@@ -282,6 +472,19 @@ def real_apply(be, op, vt=None, stats=None):
         if op[0] == "reopen":
             be.reopen()
             return "unit"
+        if op[0] == "fault":
+            be.ctl.arm(op[3], op[1], op[2])
+            try:
+                return real_apply(be, op[4], stats=stats)
+            finally:
+                be.ctl.disarm(count=fault_fires(op))
+        if op[0] == "freshall":
+            rows = be.fresh(op[1])
+            return "rows " + " ".join(sorted("%s:%s:%s" % (ttok(t), k, vtok(v)) for k, t, v in rows))
+        if op[0] == "lock":
+            return be.lock()
+        if op[0] == "unlock":
+            return be.unlock()
     except ValueError:
         return "ValueError"
     except Exception as e:  # noqa
@@ -290,16 +493,18 @@ def real_apply(be, op, vt=None, stats=None):
 
 
 def correspondence(layer, be, seqs, vt=None, stats=None):
-    lines, reals = [], []
+    lines, mlines, reals = [], [], []
     mock = layer == "mockstorage"
     for ops in seqs:
         be.reset()
         lines.append("reset")
+        mlines.append("reset")
         reals.append("unit")
         for op in ops:
             lines.append(op_line(op, mock=mock))
+            mlines.append(op_line(op, mock=mock, for_model=True) if op[0] == "fault" else lines[-1])
             reals.append(real_apply(be, op, stats=stats))
-    model = [canon_rows(x) for x in run_driver(layer, lines)]
+    model = [canon_rows(x) for x in run_driver(layer, mlines)]
     dis = []
     for i, (r, m) in enumerate(zip(reals, model)):
         if r != m:
@@ -773,16 +978,168 @@ def payload_hist(seqs):
 
 
 # ---------------------------------------------------------------------------------------------------------------
+# fault programs (connection-level model)
+
+def small_vals(rng):
+    return [b"", b"x", b"\xff\xfe\x00\x80", pat(300, rng.randrange(256)), 0, 17, 2 ** 40, "cursor-abc", 1.5, b"r%d" % rng.randrange(1000)]
+
+
+def fault_kinds(op, rng=None):
+    """the fault schedules that make sense for an op: (failing executes, fetchall fails)"""
+    if op[0] == "reopen":
+        return [(1, False)]                       # one of the five set-up statements; a persistent one would leave no object
+    if op[0] in ("read", "readall", "readpaged"):
+        return [(1, False), (2, False), (0, True), (1, True)]
+    return [(1, False), (2, False)]
+
+
+def wrap_fault(rng, op, kind=None, k=None):
+    """k = executes of the call that run before the first injected error (the audited code issues one statement per call, so
+    k >= 1 only hits code that issues more)"""
+    n, ff = kind if kind else rng.choice(fault_kinds(op))
+    inner = ("readall", op[1]) if op[0] == "readpaged" else op
+    if k is None:
+        k = rng.randrange(5) if op[0] == "reopen" else (1 if rng.random() < 0.15 else 0)
+    return ("fault", n, ff, k, inner)
+
+
+def observe_tail(rng, tags, nids):
+    """further acknowledged writes after whatever happened, then the three observations: same object, fresh connection, reopen"""
+    ids = list(range(1, max(2, nids + 1)))
+    vals = small_vals(rng)
+    t = [("create", rng.choice(tags), rng.choice(vals)), ("update", rng.choice(tags), rng.choice(vals), rng.choice(ids)),
+         ("delete", rng.choice(tags), rng.choice(ids)), ("create", rng.choice(tags), rng.choice(vals)),
+         ("readall", None), ("freshall", None), ("freshall", rng.choice(tags)), ("reopen",), ("readall", None), ("freshall", None)]
+    return t
+
+
+def fault_plan(rng, tier):
+    """[(ops, meta)]: faults at every position of short programs; repeated faults; lock windows; sampled positions of scaled programs"""
+    progs = []
+    # 1. every position x every fault kind
+    for b in range(12 if tier == "quick" else 150):
+        tags = TAGS if b % 2 == 0 else pick_tags(rng, 3)
+        base = gen_ops(rng, rng.randint(4, 9), small_vals(rng), tags)
+        ncr = sum(1 for o in base if o[0] == "create")
+        tail = observe_tail(rng, tags, ncr + 2)
+        for k, op in enumerate(base):
+            for kind in fault_kinds(op):
+                progs.append((base[:k] + [wrap_fault(rng, op, kind, k=None if op[0] == "reopen" else 0)] + base[k + 1:] + tail,
+                              {"family": "every-position", "position": k, "fault": kind, "op": op[0]}))
+            if op[0] in ("create", "update", "delete"):      # … and behind the call's first statement
+                progs.append((base[:k] + [wrap_fault(rng, op, (1, False), k=1)] + base[k + 1:] + tail,
+                              {"family": "every-position", "position": k, "fault": (1, False), "after_executes": 1, "op": op[0]}))
+    # 2. repeated faults in random programs, fresh-connection reads in between
+    for b in range(60 if tier == "quick" else 2000):
+        tags = TAGS if b % 2 == 0 else pick_tags(rng, rng.choice([2, 3, 4]))
+        base = gen_ops(rng, rng.randint(8, 35), small_vals(rng), tags)
+        ops = []
+        for op in base:
+            ops.append(wrap_fault(rng, op) if rng.random() < 0.3 else op)
+            if rng.random() < 0.15:
+                ops.append(("freshall", rng.choice(list(tags) + [None])))
+        progs.append((ops + observe_tail(rng, tags, sum(1 for o in base if o[0] == "create") + 2), {"family": "repeated"}))
+    # 3. another connection holds the write lock across a window (real `database is locked` errors beyond the busy timeout)
+    for b in range(20 if tier == "quick" else 250):
+        tags = TAGS if b % 2 == 0 else pick_tags(rng, 3)
+        base = [o for o in gen_ops(rng, rng.randint(8, 24), small_vals(rng), tags)]
+        ops, locked, left = [], False, 0
+        for op in base:
+            if locked and (left <= 0 or op[0] == "reopen"):
+                ops.append(("unlock",))
+                locked = False
+            if not locked and op[0] != "reopen" and rng.random() < 0.2:
+                ops.append(("lock",))
+                locked, left = True, rng.randint(1, 4)
+            ops.append(wrap_fault(rng, op) if op[0] != "reopen" and rng.random() < 0.15 else op)
+            left -= 1
+            if rng.random() < 0.15:
+                ops.append(("freshall", rng.choice(list(tags) + [None])))
+        if locked:
+            ops.append(("unlock",))
+        progs.append((ops + observe_tail(rng, tags, sum(1 for o in base if o[0] == "create") + 2), {"family": "lock-window"}))
+    # 4. size-scaling programs with faults at sampled positions and fresh-connection reads at sampled checkpoints
+    cps = set(s for s in SPECIAL if s <= 2049)
+    scaled = [prog_growth(rng, "sqlite", tier, rng.choice([513, 1001, 1025]) + rng.randint(0, 9), 1, "single", 0.0, cps),
+              prog_growth(rng, "sqlite", tier, rng.choice([257, 502, 513]), 3, "blocks", 0.15, cps, max_total=2500),
+              prog_shrink(rng, "sqlite", tier, rng.choice([500, 1000, 1024]), 2, "mostly", rng.choice(["middle", "stride", "suffix"]), dmin=1)]
+    if tier == "thorough":
+        scaled += [prog_growth(rng, "sqlite", tier, rng.choice([2049, 4097]), rng.choice([1, 2]), "mostly", rng.choice([0.0, 0.1]), cps,
+                               max_total=6000) for _ in range(6)]
+        scaled += [prog_shrink(rng, "sqlite", tier, rng.choice([1025, 2048, 4096]), 2, "mostly", "random", dmin=1) for _ in range(3)]
+    for ops, meta in scaled:
+        idx = set(rng.sample(range(len(ops)), min(len(ops), 16)))
+        out = []
+        for i, op in enumerate(ops):
+            out.append(wrap_fault(rng, op) if i in idx else (("readall", op[1]) if op[0] == "readpaged" else op))
+            if op[0] in ("readall", "readpaged") and rng.random() < 0.2:
+                out.append(("freshall", op[1]))
+        out += [("freshall", None)]
+        progs.append((out, {"family": "scaled+faults", "base": meta["family"], "target": meta["target"]}))
+    return progs
+
+
+def fault_stats(progs, reals_by_prog):
+    h = {"programs": {}, "faults": {}, "outcomes_of_faulted_calls": {}, "fresh_reads": 0, "lock_windows": 0, "writes_refused_by_lock": 0}
+    for (ops, meta), reals in zip(progs, reals_by_prog):
+        h["programs"][meta["family"]] = h["programs"].get(meta["family"], 0) + 1
+        locked = False
+        for op, r in zip(ops, reals):
+            if op[0] == "fault":
+                k = "%s: %d execute%s%s" % (op[4][0], op[1], " + fetchall" if op[2] else "",
+                                              " (behind the call's only statement: does not fire)" if not fault_fires(op) else "")
+                h["faults"][k] = h["faults"].get(k, 0) + 1
+                o = r.split()[0]
+                h["outcomes_of_faulted_calls"][o] = h["outcomes_of_faulted_calls"].get(o, 0) + 1
+            elif op[0] == "freshall":
+                h["fresh_reads"] += 1
+            elif op[0] == "lock":
+                h["lock_windows"] += 1
+                locked = r == "unit"
+            elif op[0] == "unlock":
+                locked = False
+            if locked and r == "!OperationalError":
+                h["writes_refused_by_lock"] += 1
+    return h
+
+
+# ---------------------------------------------------------------------------------------------------------------
 # the property itself, evaluated on the implementation
 
 def spec_oracle(be, ops, mock_quirks=False):
     """the property itself on the real backend: reference dict semantics.  Returns failure dict or None."""
     ref = {}
     be.reset()
-    for i, op in enumerate(ops):
-        r = real_apply(be, op)
+    locked = False
+    nfaults = nreopen = 0
+    for i, op0 in enumerate(ops):
+        r = real_apply(be, op0)
         bad = None
-        if op[0] == "create":
+        nfaults += 1 if op0[0] == "fault" or (locked and r == "!OperationalError") else 0
+        nreopen += 1 if op0[0] == "reopen" or (op0[0] == "fault" and op0[4][0] == "reopen") else 0
+        op = op0
+        excused = False                  # an injected fault / a foreign lock may make the call fail (unacknowledged, no effect)
+        if op0[0] == "fault":
+            op = op0[4]
+            excused = op0[1] > 0 or op0[2]
+        if locked and op[0] in ("create", "update", "delete"):
+            excused = True
+        if op0[0] == "lock":
+            locked = r == "unit"
+            continue
+        if op0[0] == "unlock":
+            locked = False
+            continue
+        if op0[0] == "freshall":
+            continue                     # compared with the model in the correspondence; the property speaks of close + reopen
+        if r == "!OperationalError" and op[0] != "reopen":
+            if not excused:
+                bad = "%s raised OperationalError although no fault was injected and nobody held the lock" % op[0]
+            else:
+                continue
+        if bad:
+            pass
+        elif op[0] == "create":
             if not r.startswith("id "):
                 bad = "create did not return an id: %s" % r
             else:
@@ -817,7 +1174,11 @@ def spec_oracle(be, ops, mock_quirks=False):
                 else:
                     bad = "read_all returned %s" % clip(r, 120)
         if bad:
+            if nfaults:
+                bad += "  [history: %d call(s) hit an injected OperationalError / a foreign write lock, %d close+reopen]" % (nfaults, nreopen)
             return {"ops": [op_line(("readall", o[1]) if o[0] == "readpaged" else o) for o in ops[:i + 1]], "failure": bad}
+    if hasattr(be, "unlock"):
+        be.unlock()
     return None
 
 
@@ -829,7 +1190,8 @@ def shrink(be, ops, budget_s):
         return None
     cur = ops[:len(hit["ops"])]
     # coarse passes first: only the creates and the failing op; then without reads / reopens / updates / deletes
-    for keep in (lambda o: o[0] == "create", lambda o: o[0] in ("create", "delete"), lambda o: o[0] not in ("read", "readall", "readpaged"),
+    for keep in (lambda o: o[0] == "create", lambda o: o[0] in ("create", "delete"), lambda o: o[0] in ("create", "fault", "reopen"),
+                 lambda o: o[0] not in ("read", "readall", "readpaged", "freshall"), lambda o: o[0] not in ("lock", "unlock"),
                  lambda o: o[0] != "reopen", lambda o: o[0] != "update"):
         cand = [o for o in cur[:-1] if keep(o)] + [cur[-1]]
         if len(cand) < len(cur):
@@ -860,12 +1222,13 @@ def shrink(be, ops, budget_s):
     return hit
 
 
-def search(be, tier, seed, vals, th_errors):
-    """find a concrete op list on which the map laws fail on the real SqliteStorage: short sequences first, then the size-scaling
-    programs; shrink it"""
+def search(be, tier, seed, vals, th_errors, bef=None):
+    """find a concrete op list on which the map laws fail on the real SqliteStorage: short sequences first, then the fault programs
+    (on the fault-capable backend `bef`), then the size-scaling programs; shrink it"""
     srng = rng_for(seed, "c09search")
-    tried = {"short": 0, "short_tricky_tags": 0, "scaled": 0}
+    tried = {"short": 0, "short_tricky_tags": 0, "fault_programs": 0, "scaled": 0}
     hit = None
+    hit_be = be
     for k in range(2000 if tier == "quick" else 20000):
         tricky = k % 3 == 2
         tags = pick_tags(srng, 4) if tricky else TAGS
@@ -874,6 +1237,18 @@ def search(be, tier, seed, vals, th_errors):
         if hit:
             hit["found_by"] = "short random sequences" + (" over tricky tags" if tricky else "")
             break
+    if not hit and bef is not None:
+        try:
+            for ops, meta in fault_plan(rng_for(seed, "c09search-faults"), tier):
+                tried["fault_programs"] += 1
+                hit = spec_oracle(bef, ops)
+                if hit:
+                    hit["found_by"] = "fault program %r" % (meta,)
+                    hit_be = bef
+                    break
+        finally:
+            if not hit:
+                bef.uninstall()
     if not hit:
         for ops, meta in scaled_plan(rng_for(seed, "c09search-scaled"), tier, "sqlite"):
             tried["scaled"] += 1
@@ -881,9 +1256,29 @@ def search(be, tier, seed, vals, th_errors):
             if hit:
                 hit["found_by"] = "size-scaling program %r" % (meta,)
                 break
+    if not hit and not th_errors:
+        # nothing sequential fails: look for a race with many more, finer-grained thread schedules
+        old_si = sys.getswitchinterval()
+        sys.setswitchinterval(1e-5)
+        try:
+            for k in range(40 if tier == "quick" else 300):
+                tried["threaded_runs"] = tried.get("threaded_runs", 0) + 1
+                e, _n = threaded_stress(be, srng, 6, 80)
+                if not e and k % 10 == 0:
+                    e, _n, _s = threaded_bulk(be, srng, 800, 3)
+                if e:
+                    th_errors = e
+                    break
+        finally:
+            sys.setswitchinterval(old_si)
     if hit:
         full = [parse_line(l) for l in hit["ops"]]
-        small = shrink(be, full, 10 if tier == "quick" else 60)
+        try:
+            small = shrink(hit_be, full, 10 if tier == "quick" else 60)
+        finally:
+            if hit_be is bef:
+                bef.unlock()
+                bef.uninstall()
         if small and len(small["ops"]) <= len(hit["ops"]):
             small["found_by"] = hit["found_by"]
             small["shrunk_from_ops"] = len(hit["ops"])
@@ -891,6 +1286,11 @@ def search(be, tier, seed, vals, th_errors):
         hit["backend"] = "SqliteStorage"
         hit["ops_summary"] = summarize(hit["ops"], keep=20)
         hit["n_ops"] = len(hit["ops"])
+        if hit_be is bef:
+            hit["fault_injection"] = ("`fault N F K <op>`: during <op> the module's sqlite3 connection raises sqlite3.OperationalError from the "
+                                      "next N execute calls (after K good ones) and, F = T, from fetchall; `lock` / `unlock`: a second connection "
+                                      "holds BEGIN IMMEDIATE (busy timeouts of the code scaled down %dx); `freshall`: SELECT through a fresh "
+                                      "sqlite3 connection (harness/c09_storage.py RealSqliteF)" % TIME_SCALE)
         hit["note"] = "value tokens: b<hex> bytes, p<n>_<k> = bytes(range(256)) repeated, n bytes starting at byte k, q<n>_<b> = n times byte b, " \
                       "i<int>, s<utf8 hex> str, f<float>; tag tokens: plain or @<code points>; replay with ./check C09 --replay <this file>"
     elif th_errors:
@@ -1086,6 +1486,9 @@ def do_replay(res, path, sq):
         print("REPLAY: %s has no op list (threaded finding)" % path)
         return
     ops = [parse_line(l) for l in f["ops"]]
+    if any(o[0] in ("fault", "freshall", "lock", "unlock") for o in ops):
+        sq.cleanup()
+        sq = RealSqliteF()
     hit = spec_oracle(sq, ops)
     if hit:
         print("REPLAY: still fails on %s after %d ops: %s" % (REPO, len(hit["ops"]), hit["failure"]))
@@ -1101,6 +1504,7 @@ def run(res, tier, seed, proof_broken, replay):
     vals = value_pool(rng)
     nseq, nlen = (300, 25) if tier == "quick" else (4000, 40)
     sq, mk = RealSqlite(), RealMock()
+    sqf = RealSqliteF()
     opens, fixed = load_known_findings(PID)
     try:
         if replay:
@@ -1163,6 +1567,33 @@ def run(res, tier, seed, proof_broken, replay):
         miss = st_sq.missing(CAP[tier])
         if miss and not (d3 or d1):
             raise HarnessError("the size-scaling generator did not reach every checkpoint size: %s" % "; ".join(miss))
+        # 3d. fault injection against the connection-level model (reconnect path, foreign locks, fresh-connection reads)
+        t0 = time.time()
+        fplan = fault_plan(rng_for(seed, "c09faults"), tier)
+        try:
+            l5, r5, d5 = correspondence("sqliteconn", sqf, [p[0] for p in fplan])
+        finally:
+            sqf.unlock()
+            sqf.uninstall()
+        per_prog, cur = [], None
+        for ln, r in zip(l5, r5):
+            if ln == "reset":
+                cur = []
+                per_prog.append(cur)
+            else:
+                cur.append(r)
+        fstats = fault_stats(fplan, per_prog)
+        fstats.update({"injected_execute_errors": sqf.ctl.fired, "injected_fetchall_errors": sqf.ctl.fetch_fired,
+                       "connections_made_by_the_object": sqf.ctl.connects, "executes_seen": sqf.ctl.executes,
+                       "scheduled_faults_that_did_not_fire": sqf.ctl.unfired, "busy_timeout_scale": "1/%d" % TIME_SCALE,
+                       "ops": len(l5), "rule": "faults = sqlite3.OperationalError raised by a proxy around the object's real connection at "
+                       "the 1st (transient) or 1st and 2nd (persistent) execute of a call, or at fetchall; every position x kind of short base "
+                       "programs, random repeated faults, windows in which a second real connection holds BEGIN IMMEDIATE, sampled positions "
+                       "of size-scaling programs; every program goes on with acknowledged writes and ends with read_all through the object, "
+                       "SELECT through a fresh connection, close+reopen, read_all, fresh SELECT"})
+        t_faults = time.time() - t0
+        if sqf.ctl.unfired and not d5:
+            raise HarnessError("%d scheduled faults did not fire although model and implementation agree" % sqf.ctl.unfired)
         # 3c. threads
         t0 = time.time()
         th_errors, th_rows = [], 0
@@ -1192,7 +1623,8 @@ def run(res, tier, seed, proof_broken, replay):
             for t in meta["tags"]:
                 tagkinds[ttok(t)] = tagkinds.get(ttok(t), 0) + 1
         res.coverage.update({
-            "evaluations": len(l1) + len(l2) + len(l3) + len(l4), "programs": 2 * len(seqs) + len(plan_sq) + len(plan_mk),
+            "evaluations": len(l1) + len(l2) + len(l3) + len(l4) + len(l5), "programs": 2 * len(seqs) + len(plan_sq) + len(plan_mk) + len(fplan),
+            "faults": fstats,
             "distinct_nontrivial": distinct,
             "rule": "random op sequences (create/update/delete/read/read_all/reopen) over 3 plain tags and over 2-4 tags drawn from "
                     "prefix / SQL-wildcard / quote / case-variant / unicode / empty tags, ids drawn from returned ids plus never-used ones "
@@ -1200,7 +1632,7 @@ def run(res, tier, seed, proof_broken, replay):
                     "with close+reopen, and on MockStorage; distinct = distinct (operation line, result) pairs of the short sequences; plus "
                     "the size-scaling programs described under `scaled`",
             "samples": [{"ops": l1[1:8], "results": r1[1:8]}],
-            "disagreements_checked": len(d1) + len(d2) + len(d3) + len(d4),
+            "disagreements_checked": len(d1) + len(d2) + len(d3) + len(d4) + len(d5),
             "op_histogram": hist, "result_histogram": outcomes, "threaded_runs": 2 if tier == "quick" else 10,
             "threaded_rows_checked": th_rows, "threaded_bulk": {"runs": 2 if tier == "quick" else 8, "rows_written": bulk_rows,
                                                                  "concurrent_read_all_snapshots_checked": bulk_snaps},
@@ -1222,10 +1654,13 @@ def run(res, tier, seed, proof_broken, replay):
                 "model_paged_reader_calls": sum(1 for ln in l3 if ln.startswith("readpaged")),
                 "sample_program": {"meta": plan_sq[2][1], "ops": summarize([op_line(o) for o in plan_sq[2][0]], keep=6)},
             },
-            "seconds": {"short": round(t_short, 1), "scaled": round(t_scaled, 1), "threads": round(t_threads, 1)},
+            "seconds": {"short": round(t_short, 1), "scaled": round(t_scaled, 1), "faults": round(t_faults, 1), "threads": round(t_threads, 1)},
             "fingerprints": fingerprints(FP_SPEC),
         })
-        res.assumptions += ["SQLite durability and per-statement atomicity (WAL, mutex) are trusted; the model's reopen is the identity",
+        res.assumptions += ["SQLite durability and per-statement atomicity (WAL, mutex) are trusted; in autocommit mode the model commits each statement at once",
+                            "fault runs: the module-level name `sqlite3` of cloudsync.sync.sqlite_storage is replaced by a shim (pass-through "
+                            "proxy that raises OperationalError on schedule and divides busy timeouts by %d); an injected error stands for a "
+                            "statement that had no effect" % TIME_SCALE,
                             "OS thread schedules are sampled, not enumerated (partial)",
                             "the SQL-site extractor (tools/gen_sql_sites.py, syntactic) is trusted; SQLite's semantics of the audited statements "
                             "is the hand-written model, tied by the differential runs up to the tier's row cap"]
@@ -1238,13 +1673,13 @@ def run(res, tier, seed, proof_broken, replay):
         res.coverage["sql_site_table"] = {"rows": n_sites, "theorems": load_obligations(PID).get("table_theorems", []),
                                           "checks": not table_fails, "rows_not_in_audited_table": new_rows[:8], "seconds": table_box["s"]}
         broken = list(proof_broken) + table_fails
-        dall = d1 + d2 + d3 + d4
+        dall = d1 + d2 + d3 + d4 + d5
         if dall:
             broken.append("correspondence storage-layer: %r" % (dall[0],))
         if th_errors:
             broken.append("threaded stress: " + th_errors[0])
         if broken:
-            hit, tried = search(sq, tier, seed, vals, th_errors)
+            hit, tried = search(sq, tier, seed, vals, th_errors, bef=sqf)
             if hit:
                 res.violation({"property": PID, "kind": "map law fails on implementation", "failing": hit,
                                "broken": [clip(b, 1500) for b in broken], "search": tried,
@@ -1255,6 +1690,7 @@ def run(res, tier, seed, proof_broken, replay):
                                "sql_rows_not_in_audited_table": new_rows[:8], "first_disagreements": dall[:3]}, no_input=True)
     finally:
         sq.cleanup()
+        sqf.cleanup()
 
 
 if __name__ == "__main__":
